@@ -369,6 +369,133 @@ pub fn set_history(rng: &mut Prng, max_ops: usize, light: bool) -> History {
     History { text, expected, e, m, n_ops, kind: if native { "set-native" } else { "set" } }
 }
 
+/// three further history families: counting generators over colliding keys, set algebra between sets built
+/// with *different* hash functions (the left operand possibly empty), and collections used as keys of
+/// collections (equal inner mappings built in different insertion orders over a colliding hash)
+pub fn special_history(rng: &mut Prng) -> History {
+    let e = *rng.pick(&[2i64, 3, 5, 12]);
+    let m = *rng.pick(&[1i64, 2, 3, 7]);
+    let mut text = format!("let v_ballast = \"{}\";\n", "b".repeat(1400));
+    let mut body: Vec<String> = vec![];
+    let mut expected = String::new();
+    let kind: &'static str;
+    match rng.below(3) {
+        0 => {
+            kind = "counting";
+            text.push_str(&format!("fn v_h(v_k: int)->int{{ (v_k % {e}) % {m} }}\nfn v_e(v_a: int, v_b: int)->bool{{ v_a % {e} == v_b % {e} }}\n"));
+            let n = 1 + rng.below(14) as usize;
+            let keys: Vec<i64> = (0..n).map(|_| rng.below(UNIVERSE as u64) as i64).collect();
+            text.push_str(&format!("let v_keys = {};\n", keys_lit(&keys)));
+            let mut counts: std::collections::BTreeMap<i64, i64> = Default::default();
+            let mut running = vec![];
+            let mut firsts = vec![];
+            for k in &keys {
+                let c = counts.entry(k % e).or_insert(0);
+                *c += 1;
+                running.push(format!("({}, {})", k % e, *c));
+                if *c == 1 {
+                    firsts.push((k % e).to_string());
+                }
+            }
+            body.push(format!("display(v_keys.to_generator().with_count(v_h, v_e).map((v_p: (int, int))->{{ (v_p::item0 % {e}, v_p::item1) }}).to_array().to_str())"));
+            expected.push_str(&format!("[{}]\n", running.join(", ")));
+            body.push(format!("display(v_keys.to_generator().distinct(v_h, v_e).map((v_k: int)->{{ v_k % {e} }}).to_array().to_str())"));
+            expected.push_str(&format!("[{}]\n", firsts.join(", ")));
+            body.push("display(mapping(v_h, v_e).update_counter(v_keys.to_generator()).len())".to_string());
+            expected.push_str(&format!("{}\n", counts.len()));
+            for c in 0..e.min(UNIVERSE) {
+                body.push(format!("display(mapping(v_h, v_e).update_counter(v_keys.to_generator()).lookup({c}).or(0))"));
+                expected.push_str(&format!("{}\n", counts.get(&c).copied().unwrap_or(0)));
+            }
+        }
+        1 => {
+            kind = "cross-hash-sets";
+            let (m1, m2) = (*rng.pick(&[1i64, 2, 3, 1000]), *rng.pick(&[2i64, 3, 5, 7]));
+            text.push_str(&format!("fn v_h1(v_k: int)->int{{ v_k % {m1} }}\nfn v_h2(v_k: int)->int{{ v_k % {m2} }}\nfn v_e(v_a: int, v_b: int)->bool{{ v_a == v_b }}\n"));
+            let a: Vec<i64> = if rng.chance(1, 2) { vec![] } else { (0..rng.below(4)).map(|_| rng.below(UNIVERSE as u64) as i64).collect() };
+            let b: Vec<i64> = (0..1 + rng.below(6)).map(|_| rng.below(UNIVERSE as u64) as i64).collect();
+            let sa: std::collections::BTreeSet<i64> = a.iter().copied().collect();
+            let sb: std::collections::BTreeSet<i64> = b.iter().copied().collect();
+            text.push_str(&format!("let v_a = set(v_h1, v_e).update({});\nlet v_b = set(v_h2, v_e).update({});\n", if a.is_empty() { "cast<Sequence<int>>([])".to_string() } else { keys_lit(&a) }, keys_lit(&b)));
+            let results: Vec<(&str, String, std::collections::BTreeSet<i64>)> = vec![
+                ("v_u", "v_a | v_b".into(), sa.union(&sb).copied().collect()),
+                ("v_w", "v_a.update(v_b.to_generator())".into(), sa.union(&sb).copied().collect()),
+                ("v_x", "v_a ^ v_b".into(), sa.symmetric_difference(&sb).copied().collect()),
+                ("v_r", "v_b | v_a".into(), sa.union(&sb).copied().collect()),
+            ];
+            for (name, expr, _) in &results {
+                text.push_str(&format!("let {name} = {expr};\n"));
+            }
+            for (name, _, model) in &results {
+                body.push(format!("display({name}.len())"));
+                expected.push_str(&format!("{}\n", model.len()));
+                body.push(format!("display({name}.to_array().sort().to_str())"));
+                expected.push_str(&format!("[{}]\n", model.iter().map(|k| k.to_string()).collect::<Vec<_>>().join(", ")));
+                for k in 0..UNIVERSE {
+                    body.push(format!("display({name}.contains({k}))"));
+                    expected.push_str(&format!("{}\n", model.contains(&k)));
+                }
+                let probe = rng.below(UNIVERSE as u64) as i64;
+                body.push(format!("display({name}.add({probe}).len())"));
+                expected.push_str(&format!("{}\n", model.len() + usize::from(!model.contains(&probe))));
+                body.push(format!("display({name}.discard({probe}).len())"));
+                expected.push_str(&format!("{}\n", model.len() - usize::from(model.contains(&probe))));
+                body.push(format!("display({name} == v_b)"));
+                expected.push_str(&format!("{}\n", *model == sb));
+                body.push(format!("display({name} >= v_b)"));
+                expected.push_str(&format!("{}\n", sb.is_subset(model)));
+                body.push(format!("display(({name} - v_b).len())"));
+                expected.push_str(&format!("{}\n", model.difference(&sb).count()));
+                body.push(format!("display(({name} & v_b).len())"));
+                expected.push_str(&format!("{}\n", model.intersection(&sb).count()));
+            }
+        }
+        _ => {
+            kind = "collections-as-keys";
+            // a and b collide under v_h (same bucket), so their order inside the bucket is the insertion order
+            let mm = *rng.pick(&[1i64, 2, 3]);
+            text.push_str(&format!("fn v_h(v_k: int)->int{{ v_k % {mm} }}\nfn v_e(v_a: int, v_b: int)->bool{{ v_a == v_b }}\n"));
+            let n = 2 + rng.below(2) as usize;
+            let mut names = vec![];
+            for i in 0..n {
+                let a = i as i64 * mm * 2;
+                let b = a + mm;
+                let c = a + mm * 5;
+                let (va, vb, vc) = (1 + rng.below(3) as i64, 1 + rng.below(3) as i64, 1 + rng.below(3) as i64);
+                text.push_str(&format!("let v_k{i}a = mapping(v_h, v_e).set({a}, {va}).set({b}, {vb}).set({c}, {vc});\n"));
+                text.push_str(&format!("let v_k{i}b = mapping(v_h, v_e).set({c}, {vc}).set({b}, {vb}).set({a}, {va});\n"));
+                names.push(i);
+            }
+            text.push_str(&format!("let v_o = set<Mapping<int, int>>(){};\n", names.iter().map(|i| format!(".add(v_k{i}a)")).collect::<String>()));
+            text.push_str(&format!("let v_q = mapping<Mapping<int, int>>(){};\n", names.iter().map(|i| format!(".set(v_k{i}a, {})", 100 + i)).collect::<String>()));
+            body.push("display(v_o.len())".into());
+            expected.push_str(&format!("{n}\n"));
+            for i in &names {
+                body.push(format!("display(v_k{i}a == v_k{i}b)"));
+                expected.push_str("true\n");
+                body.push(format!("display(hash(v_k{i}a) == hash(v_k{i}b))"));
+                expected.push_str("true\n");
+                body.push(format!("display(v_o.contains(v_k{i}b))"));
+                expected.push_str("true\n");
+                body.push(format!("display(v_o.add(v_k{i}b).len())"));
+                expected.push_str(&format!("{n}\n"));
+                body.push(format!("display(v_o.discard(v_k{i}b).len())"));
+                expected.push_str(&format!("{}\n", n - 1));
+                body.push(format!("display(v_q.lookup(v_k{i}b).or(0 - 1))"));
+                expected.push_str(&format!("{}\n", 100 + i));
+                body.push(format!("display(v_q.set(v_k{i}b, 7).len())"));
+                expected.push_str(&format!("{n}\n"));
+            }
+        }
+    }
+    text.push_str("fn main()->bool{\n");
+    for (j, b) in body.iter().enumerate() {
+        text.push_str(&format!("    let v_o{j} = {b};\n"));
+    }
+    text.push_str("    true\n}\n");
+    History { text, expected, e, m, n_ops: body.len(), kind }
+}
+
 /// collections large enough that the natives' own allocation pre-flights are points where a
 /// size limit can land (300 elements: every update pre-flights about 2.4 KB)
 pub const BIG_OBS: &[(&str, &str, &str)] = &[
@@ -435,7 +562,7 @@ pub fn make(spec: &JobSpec, ex: &mut Executor, out: &mut JobResult) -> Option<Bo
                     }
                     continue;
                 }
-                let h = if rng.chance(1, 2) { mapping_history(&mut rng, max_ops, false) } else { set_history(&mut rng, max_ops, false) };
+                let h = if k % 4 == 1 { special_history(&mut rng) } else if rng.chance(1, 2) { mapping_history(&mut rng, max_ops, false) } else { set_history(&mut rng, max_ops, false) };
                 for l in 0..layouts {
                     let mut sc = Scenario::standard(&h.text, Limits::calibration());
                     sc.seed = spec.seed.wrapping_add(k as u64);
